@@ -16,7 +16,7 @@ mut_suite=$(timeout 300 cargo test --offline 2>&1 | grep -E "^test result" | tr 
 git checkout -q -- src
 cp $patch $out/patch.diff; cp $demo $out/$(basename $demo)
 cd /repo && git apply $out/patch.diff || { echo "patch does not apply to /repo"; exit 2; }
-cd /verif && res=$(timeout 3000 ./check $prop --tier quick 2>&1 | grep -E "VIOLATION|UNDECIDED|tier=" | cut -c1-400)
+cd /verif && res=$(VERIF_NO_EVIDENCE=1 timeout 3000 ./check $prop --tier quick 2>&1 | grep -E "VIOLATION|UNDECIDED|tier=" | cut -c1-400)
 rc=$?
 git -C /repo checkout -- . 
 python3 - "$id" "$prop" "$needs" "$base_demo" "$mut_demo" "$mut_suite" "$res" <<'PY'
